@@ -74,7 +74,8 @@ impl ZoneCursor {
         let payload: HashMap<String, ScalarValue> = self
             .payload_fields
             .iter()
-            .map(|(k, v)| (k.clone(), v[idx].clone()))
+            // a zone in which an optional field is absent from every row has no block for it
+            .map(|(k, v)| (k.clone(), v.get(idx).cloned().unwrap_or(ScalarValue::Null)))
             .collect();
 
         if tracing::enabled!(tracing::Level::TRACE) {
